@@ -142,12 +142,57 @@ class Engine:
         self.pc.append(zc)
         return True
 
+    def _linear_part(self):
+        """conjuncts of assumptions + path condition without products of two non-constant terms (a relaxation)"""
+        out = []
+        for c in list(self.assumes) + list(self.pc):
+            if _is_linear(c):
+                out.append(c)
+        return out
+
+    def _feasible_relaxed(self, zc, bt):
+        """feasibility against the LINEAR part of the path only: unsat is definitive, sat an over-approximation"""
+        s = z3.Solver()
+        s.set('timeout', int(bt))
+        for c in self._linear_part():
+            s.add(c)
+        s.add(zc)
+        t = time.time()
+        r = str(s.check())
+        self.tq += time.time() - t
+        self.nq += 1
+        return r
+
     def _feasible(self, zc, bt):
         """feasibility of a branch.  With stub axioms present and the full query undecided, fall back to the
         query without them: unsat there is definitive; sat there is taken as feasible (over-approximation:
         an infeasible path can only add vacuous obligations, and any counterexample is replayed anyway)."""
         if not self.axioms:
-            return self.check(zc, timeout_ms=bt)[0]
+            r = self.check(zc, timeout_ms=bt)[0]
+            if r == 'unknown' and not _is_linear(zc):
+                # nonlinear condition on a path that also carries integer (rounding) constraints: decide it against the
+                # conjuncts that mention no integer variable (the rounding definitions are total, dropping them relaxes)
+                s2 = z3.Solver()
+                s2.set('timeout', int(bt))
+                for c in list(self.assumes) + list(self.pc):
+                    if not _has_int(c):
+                        s2.add(c)
+                s2.add(zc)
+                t = time.time()
+                r2 = str(s2.check())
+                self.tq += time.time() - t
+                self.nq += 1
+                if r2 == 'sat':
+                    self.notes.append('branch feasibility decided without the integer constraints (over-approximation)')
+                return r2
+            if r == 'unknown' and _is_linear(zc):
+                # mixed integer / nonlinear-real path conditions defeat z3: decide the new (linear) condition against
+                # the linear part of the path; sat there is an over-approximation (recorded), unsat is definitive
+                r2 = self._feasible_relaxed(zc, bt)
+                if r2 == 'sat':
+                    self.notes.append('branch feasibility decided against the linear part of the path (over-approximation)')
+                return r2
+            return r
         r, _ = self.check(zc, with_axioms=False, timeout_ms=bt)
         if r == 'unsat':
             return r
@@ -295,6 +340,56 @@ class Engine:
 
 
 z3.set_option(max_args=12, max_lines=8, max_depth=10, max_visited=400, max_width=120)
+
+
+_LIN_CACHE = {}
+_INT_CACHE = {}
+
+
+def _has_int(e):
+    k = e.get_id()
+    if k in _INT_CACHE:
+        return _INT_CACHE[k]
+    todo, seen, found = [e], set(), False
+    while todo and not found:
+        t = todo.pop()
+        i = t.get_id()
+        if i in seen:
+            continue
+        seen.add(i)
+        if z3.is_int(t) and z3.is_const(t) and t.decl().kind() == z3.Z3_OP_UNINTERPRETED:
+            found = True
+        todo.extend(t.children())
+    _INT_CACHE[k] = found
+    return found
+
+
+def _is_linear(e):
+    """no product / division of two non-numeral subterms anywhere in e"""
+    k = e.get_id()
+    if k in _LIN_CACHE:
+        return _LIN_CACHE[k]
+    todo = [e]
+    seen = set()
+    ok = True
+    while todo and ok:
+        t = todo.pop()
+        i = t.get_id()
+        if i in seen:
+            continue
+        seen.add(i)
+        if z3.is_app(t):
+            kind = t.decl().kind()
+            ch = t.children()
+            if kind == z3.Z3_OP_MUL:
+                if sum(1 for c in ch if not (z3.is_rational_value(c) or z3.is_int_value(c))) > 1:
+                    ok = False
+            elif kind in (z3.Z3_OP_DIV, z3.Z3_OP_IDIV, z3.Z3_OP_MOD, z3.Z3_OP_POWER):
+                if len(ch) > 1 and not (z3.is_rational_value(ch[1]) or z3.is_int_value(ch[1])):
+                    ok = False
+            todo.extend(ch)
+    _LIN_CACHE[k] = ok
+    return ok
 
 
 def _short(z, n=400):
